@@ -134,10 +134,11 @@ func vStr(v string) val { return val{fmt.Sprintf("str(%q)", v), strSrc(v), st(v)
 // pool is the 45-value pool of DESIGN "### C15".
 func pool() []val {
 	var p []val
-	for _, v := range []int64{0, 1, -1, 2, 255, 256, 1 << 53, 1<<53 + 1, math.MaxInt64, math.MinInt64} {
+	for _, v := range []int64{0, 1, -1, 2, 255, 256, 1 << 53, 1<<53 + 1, math.MaxInt64, math.MinInt64, math.MaxInt64 - 511, math.MaxInt64 - 512} {
 		p = append(p, vInt(v))
 	}
-	for _, v := range []float64{0, math.Copysign(0, -1), 1, 1.5, float64(1 << 53), 1e308, math.Inf(1), math.Inf(-1)} {
+	// (2^63 is the float that MaxInt64 and its 511 predecessors round to; the float below it is 2^63-1024)
+	for _, v := range []float64{0, math.Copysign(0, -1), 1, 1.5, float64(1 << 53), 1e308, math.Inf(1), math.Inf(-1), 9223372036854775808.0, 9223372036854774784.0, -9223372036854775808.0} {
 		p = append(p, vFloat(v))
 	}
 	for _, v := range []byte{0, 1, 255} {
